@@ -26,7 +26,7 @@
 (***************************************************************************)
 EXTENDS MergeContract, SeqDiffAlgo, Json
 
-CONSTANTS MaxLen, EMIT
+CONSTANTS MaxLen, EMIT, Kind      \* Kind = "lists" | "objects"
 
 VARIABLES base, local, remote, D, merged, phase
 vars == <<base, local, remote, D, merged, phase>>
@@ -37,6 +37,8 @@ SeqsUpTo(S, n) == IF n = 0 THEN {<<>>}
                   ELSE LET P == SeqsUpTo(S, n - 1)
                        IN P \cup {Append(s, x) : s \in {q \in P : Len(q) = n - 1}, x \in S}
 ListU == SeqsUpTo(Atoms, MaxLen)
+KS == <<"a", "b">>                        \* the keys, in sorted order
+ObjU == UNION {[K -> Atoms] : K \in SUBSET {KS[j] : j \in 1..Len(KS)}}
 
 (***************************************************************************)
 (* chunks.py                                                               *)
@@ -166,14 +168,42 @@ Decisions(b, ld, rd) ==
   LET cs == Chunks(Len(b), ld, rd) IN FlatSeq([i \in 1..Len(cs) |-> ChunkDecisions(cs[i])])
 
 (***************************************************************************)
+(* _merge_dicts for objects of atomic values (no strategies, no transients) *)
+(***************************************************************************)
+EntryOf(d, k) == LET idx == {j \in 1..Len(d) : d[j].key = k} IN
+                 IF idx = {} THEN <<>> ELSE <<d[CHOOSE j \in idx : TRUE]>>
+ObjEntryEq(e, f) == e.op = f.op /\ ("value" \in DOMAIN e => Eq(e.value, f.value))
+ObjDecisions(ld, rd) ==
+  LET One(k) ==          \* keys changed on exactly one side
+        LET l == EntryOf(ld, k) r == EntryOf(rd, k) IN
+        IF Len(l) + Len(r) # 1 THEN <<>>
+        ELSE IF Len(l) = 1 THEN <<Dec("local", FALSE, l, FALSE, <<>>, TRUE)>>
+        ELSE <<Dec("remote", FALSE, <<>>, TRUE, r, FALSE)>>
+      Two(k) ==          \* keys changed on both sides
+        LET l == EntryOf(ld, k) r == EntryOf(rd, k) IN
+        IF Len(l) = 0 \/ Len(r) = 0 THEN <<>>
+        ELSE IF l[1].op = "remove" /\ r[1].op = "remove" THEN <<Agreement(l, r)>>
+        ELSE IF l[1].op = "remove" \/ r[1].op = "remove" THEN <<Conflict(l, r)>>
+        ELSE IF l[1].op # r[1].op THEN <<Conflict(l, r)>>
+        ELSE IF ObjEntryEq(l[1], r[1]) THEN <<Agreement(l, r)>>
+        ELSE <<Conflict(l, r)>>
+  IN FlatSeq([j \in 1..Len(KS) |-> One(KS[j])]) \o FlatSeq([j \in 1..Len(KS) |-> Two(KS[j])])
+
+(***************************************************************************)
 (* the state machine                                                       *)
 (***************************************************************************)
-Init == /\ base \in ListU /\ local \in ListU /\ remote \in ListU
-        /\ D = <<>> /\ merged = List(<<>>) /\ phase = "input"
+IsLists == Kind = "lists"
+Doc(x) == IF IsLists THEN List(x) ELSE Obj(x)
+DiffOf(x, y) == IF IsLists THEN ListDiff(x, y) ELSE ObjDiff(x, y, KS)
+DecisionsOf(b, ld, rd) == IF IsLists THEN Decisions(b, ld, rd) ELSE ObjDecisions(ld, rd)
+
+Init == /\ IF IsLists THEN base \in ListU /\ local \in ListU /\ remote \in ListU
+                     ELSE base \in ObjU /\ local \in ObjU /\ remote \in ObjU
+        /\ D = <<>> /\ merged = Null /\ phase = "input"
 
 Decide == /\ phase = "input"
-          /\ LET ds == Decisions(base, ListDiff(base, local), ListDiff(base, remote))
-                 r  == ApplyDecisions(List(base), ds)
+          /\ LET ds == DecisionsOf(base, DiffOf(base, local), DiffOf(base, remote))
+                 r  == ApplyDecisions(Doc(base), ds)
              IN D' = ds /\ merged' = (IF r.ok THEN r.v ELSE [t |-> "x"])
           /\ phase' = "merged"
           /\ UNCHANGED <<base, local, remote>>
@@ -181,43 +211,45 @@ Next == Decide
 Spec == Init /\ [][Next]_vars
 
 Done == phase = "merged"
-LD == ListDiff(base, local)
-RD == ListDiff(base, remote)
-Swapped == Decisions(base, RD, LD)
+LD == DiffOf(base, local)
+RD == DiffOf(base, remote)
+Swapped == DecisionsOf(base, RD, LD)
 
 DiffsCorrect ==
-  /\ WellFormed(List(base), LD) /\ Eq(Patch(List(base), LD), List(local))
-  /\ Kept(Len(base), LD) = LLCS(base, local)
+  /\ WellFormed(Doc(base), LD) /\ Eq(Patch(Doc(base), LD), Doc(local))
+  /\ IsLists => Kept(Len(base), LD) = LLCS(base, local)
 ChunkShapes ==
-  \A i \in 1..Len(Chunks(Len(base), LD, RD)) :
+  IsLists => \A i \in 1..Len(Chunks(Len(base), LD, RD)) :
     LET c == Chunks(Len(base), LD, RD)[i] t0 == TypeName(c.d0) t1 == TypeName(c.d1) IN
       /\ t0[1] <= 1 /\ t0[3] <= 1 /\ t1[1] <= 1 /\ t1[3] <= 1
       /\ (t0[2] = "R" /\ t1[2] = "R") => DiffEq(SelectSeq(c.d0, LAMBDA e : e.op # "addrange"),
                                                SelectSeq(c.d1, LAMBDA e : e.op # "addrange"))
 NoErrorArm == Done => \A j \in 1..Len(D) : D[j].action # "ERROR-R/R"
-Applies == Done => merged.t = "l"
-AllLocal  == Done => AllSideIs(List(base), D, "local", List(local))
-AllRemote == Done => AllSideIs(List(base), D, "remote", List(remote))
+Applies == Done => merged.t = Doc(base).t
+AllLocal  == Done => AllSideIs(Doc(base), D, "local", Doc(local))
+AllRemote == Done => AllSideIs(Doc(base), D, "remote", Doc(remote))
 Laws == Done =>
   /\ (local = base /\ remote = base) => Len(D) = 0
-  /\ (remote = base) => (~HasConf(D) /\ Eq(merged, List(local)))
-  /\ (local = base) => (~HasConf(D) /\ Eq(merged, List(remote)))
-  /\ (local = remote) => (~HasConf(D) /\ Eq(merged, List(local)))
+  /\ (remote = base) => (~HasConf(D) /\ Eq(merged, Doc(local)))
+  /\ (local = base) => (~HasConf(D) /\ Eq(merged, Doc(remote)))
+  /\ (local = remote) => (~HasConf(D) /\ Eq(merged, Doc(local)))
 Symmetric == Done =>
-  \/ SamePositionInsert(LD, RD)
+  \/ (IsLists /\ SamePositionInsert(LD, RD))
   \/ /\ HasConf(D) = HasConf(Swapped)
-     /\ (~HasConf(D) => LET r == ApplyDecisions(List(base), Swapped) IN r.ok /\ Eq(r.v, merged))
+     /\ (~HasConf(D) => LET r == ApplyDecisions(Doc(base), Swapped) IN r.ok /\ Eq(r.v, merged))
 \* C06 at design level: the two diffs touch positions that are at least one untouched item apart
 Touched(d) == UNION {IF d[j].op = "removerange" THEN d[j].key..(d[j].key + d[j].length) ELSE {d[j].key} : j \in 1..Len(d)}
-Separated(d0, d1) == \A x \in Touched(d0), y \in Touched(d1) : x + 1 < y \/ y + 1 < x
+Separated(d0, d1) ==
+  IF IsLists THEN \A x \in Touched(d0), y \in Touched(d1) : x + 1 < y \/ y + 1 < x
+  ELSE {d0[j].key : j \in 1..Len(d0)} \cap {d1[j].key : j \in 1..Len(d1)} = {}      \* different keys
 DisjointClean == (Done /\ Separated(LD, RD)) =>
   /\ ~HasConf(D)
-  /\ Eq(merged, Patch(List(base), Canonical(LD \o RD)))
-EmbeddedAllWF == Done => AllEmbeddedWF(List(base), D)
+  /\ Eq(merged, Patch(Doc(base), Canonical(LD \o RD)))
+EmbeddedAllWF == Done => AllEmbeddedWF(Doc(base), D)
 
 DecJson(dd) == [action |-> dd.action, conflict |-> dd.conflict, local_diff |-> dd.local_diff, local_null |-> dd.local_null,
                 remote_diff |-> dd.remote_diff]
 Emit == (EMIT /\ Done) =>
-  PrintT("MERGE " \o ToJson([base |-> List(base), local |-> List(local), remote |-> List(remote),
+  PrintT("MERGE " \o ToJson([base |-> Doc(base), local |-> Doc(local), remote |-> Doc(remote),
                               D |-> [j \in 1..Len(D) |-> DecJson(D[j])], merged |-> merged]))
 =============================================================================
